@@ -13,6 +13,9 @@ def sig_c11(rec):
 
 
 def sig_c03(rec):
+    if rec.get("family") == "edge":
+        case = rec.get("case") or {}
+        return "edge:%s:%s" % (case.get("kind"), case.get("url") or case.get("method") or "")
     case = rec.get("case") or {}
     if rec.get("family") == "flight":
         return sig_flight(rec)
@@ -26,6 +29,9 @@ def sig_c14(rec):
 
 
 def sig_resp(rec):
+    if rec.get("family") == "edge":
+        case = rec.get("case") or {}
+        return "edge:%s:%s" % (case.get("kind"), case.get("url") or case.get("method") or "")
     case = rec.get("case") or {}
     if case.get("upstream_encoding") == "lz4" and case.get("valid_stream") and case.get("body_len", 0) >= 100:
         return "lz4-ratio>10"
@@ -76,7 +82,14 @@ RACESTRESS_FAMILY = {"quick": 0, "thorough": 2500, "search": 700, "runner": "tes
                      "no_cases": True, "only": ["thorough", "search"], "search_first": True, "timeout_s": 400}
 
 
+def sig_edge(rec):
+    case = rec.get("case") or {}
+    return "edge:%s:%s" % (case.get("kind"), case.get("url") or case.get("method") or "")
+
+
 def sig_flight(rec):
+    if rec.get("family") == "edge":
+        return sig_edge(rec)
     if rec.get("family") == "maxage":
         return sig_c03(rec)
     if rec.get("family") == "racestress":
@@ -133,6 +146,9 @@ CONFIG_TRUST = [
 ]
 
 def sig_c15(rec):
+    if rec.get("family") == "edge":
+        case = rec.get("case") or {}
+        return "edge:%s:%s" % (case.get("kind"), case.get("url") or case.get("method") or "")
     case = rec.get("case") or {}
     if rec.get("family") == "rewrite":
         return "rewrite:%s %s" % ("|".join(case.get("rules") or []), case.get("path"))
@@ -159,7 +175,7 @@ PROPS = {
     },
     "C15": {
         "families": {"proxy": {"quick": 400, "thorough": 8000, "search": 2000},
-                     "rewrite": {"quick": 600, "thorough": 20000, "search": 3000}},
+                     "rewrite": {"quick": 600, "thorough": 20000, "search": 3000}, "edge": {"quick": 2, "thorough": 40, "search": 6, "no_cases": True}},
         "signature": sig_c15,
         "trusted_base": [
             "model coq/Model/Proxy.v is hand-written from server/proxy.go (NewProxy) and location.go (AddRequestHeader/AddResponseHeader/AddQuery); tied by the proxy family (real middleware, real elton proxy + net/http transport, recording origin)",
@@ -220,7 +236,8 @@ PROPS = {
                     # the lifetime T itself: what getCacheMaxAge hands to the cache for every header set (s-maxage / max-age minus the upstream's Age)
                     extra={"maxage": {"quick": 1500, "thorough": 30000, "search": 6000}}),
     "C07": sys_prop(["hit-for-pass period in whole seconds as converted by cache.convertConfigs"],
-                    "step-level theorems: marks, immediate pass without queueing, own answer, lapse; three simultaneous passes exhibited."),
+                    "step-level theorems: marks, immediate pass without queueing, own answer, lapse; three simultaneous passes exhibited.",
+                    extra={"edge": {"quick": 2, "thorough": 40, "search": 6, "no_cases": True}}),
     "C08": sys_prop(["store Set/Get/Delete are atomic per key and Get returns the last successful Set or not-found (badger transactions: trusted); process start-up and badger recovery are runtime behaviour outside the model",
                      "restarts are exercised in-process at quiescent points (fresh dispatcher on the same store)"],
                     "provenance invariant with Crash anywhere in the label sequence; restored hit = original response, original creation time, within original expiry.", with_stress=True,
@@ -229,7 +246,8 @@ PROPS = {
     "C10": sys_prop(["store calls return (possibly with an error): a call that never returns is a hang of the store client, not modelled"],
                     "C01/C02 theorems hold for all store choices; no immortal/empty hit; bad record = miss; memory hits need no store."),
     "C18": sys_prop(["a purge issued while a fetch is in flight does not cancel it: its result may be stored afterwards (stated caveat)"],
-                    "purge_effective, next request refetches, absent-key no-op, never strands (measure unchanged, progress), other keys untouched (dispatcher frame).", with_choreo=True),
+                    "purge_effective, next request refetches, absent-key no-op, never strands (measure unchanged, progress), other keys untouched (dispatcher frame).", with_choreo=True,
+                    extra={"edge": {"quick": 2, "thorough": 40, "search": 6, "no_cases": True}}),
     "C02": sys_prop(["every upstream exchange eventually ends (the proxy timeout turns silence into a 504): upstream steps are always-enabled environment steps"],
                     "no_deadlock + strictly decreasing well-founded measure + final_clean over all label sequences.", with_wakeup=True, with_choreo=True),
     "C01": {
@@ -258,7 +276,7 @@ PROPS = {
     },
     "C13": {
         "families": {"negotiate": {"quick": 400, "thorough": 8000, "search": 3000,
-                                   "components": NEGOTIATE_COMPONENTS}},
+                                   "components": NEGOTIATE_COMPONENTS}, "edge": {"quick": 2, "thorough": 40, "search": 6, "no_cases": True}},
         "signature": sig_resp,
         "trusted_base": RESP_TRUST,
         "assumptions": ["Accept-Encoding is a plain list of codings (substring test = token membership on the standard tokens)"],
@@ -266,15 +284,15 @@ PROPS = {
     },
     "C05": {
         "families": {"negotiate": {"quick": 400, "thorough": 8000, "search": 3000,
-                                   "components": NEGOTIATE_COMPONENTS}},
+                                   "components": NEGOTIATE_COMPONENTS}, "edge": {"quick": 2, "thorough": 40, "search": 6, "no_cases": True}},
         "signature": sig_resp,
         "trusted_base": RESP_TRUST,
         "assumptions": ["upstream data is a valid stream of its declared encoding and non-empty unless the body is empty"],
         "explanation": "upstream answer -> consistent response -> (store) -> serve: decoded body, acceptable encoding, status and headers preserved, for all inputs and settings.",
     },
     "C06": {
-        "families": {"keys": {"quick": 120, "thorough": 2500, "search": 800}},
-        "signature": lambda rec: "keys:" + str((rec.get("case") or {}).get("same_key", (rec.get("case") or {}).get("first_requests")))[:160],
+        "families": {"keys": {"quick": 120, "thorough": 2500, "search": 800}, "edge": {"quick": 2, "thorough": 40, "search": 6, "no_cases": True}},
+        "signature": lambda rec: ("edge:" + str((rec.get("case") or {}).get("kind"))) if rec.get("family") == "edge" else "keys:" + str((rec.get("case") or {}).get("same_key", (rec.get("case") or {}).get("first_requests")))[:160],
         "trusted_base": [
             "model coq/Model/Key.v (getKey) and Dispatcher.v are hand-written; tied by the keys family (exact key bytes; entry identity under forced shard collisions and evictions)",
             "space-free method and host are net/http's request-parsing guarantee (hypothesis of key_injective; shown necessary by C06_guard_needed)",
@@ -293,7 +311,7 @@ PROPS = {
         "explanation": "get_best/get_none hold for every sorted permutation; per-run obligation: the weights regenerated from getPriority satisfy 0 < host < prefix.",
     },
     "C03": {
-        "families": {"maxage": {"quick": 3000, "thorough": 60000, "search": 20000}, "flight": flight_family(120, 1500, 300)},
+        "families": {"maxage": {"quick": 3000, "thorough": 60000, "search": 20000}, "flight": flight_family(120, 1500, 300), "edge": {"quick": 2, "thorough": 40, "search": 6, "no_cases": True}},
         "signature": sig_c03,
         "trusted_base": [
             "model coq/Model/MaxAge.v is hand-written from server/proxy.go getCacheMaxAge + server/cache.go; the three regexes are modelled as string scanners for the literals pinned per run; Go regexp / strconv.Atoi / http.Header semantics are part of the model and tied by the maxage family",
